@@ -1,4 +1,4 @@
-HOOK_COMMITS = ["3210615"]
+HOOK_COMMITS = ["3210615", "0f00bd0"]
 FUZZED = []
 NA_REASONS = {}
 
